@@ -24,3 +24,6 @@
 ; sig itoa : Int -> Str
 (declare-fun itoa (Int) Str)
 (assert (forall ((n Int)) (! (>= (s_len (itoa n)) 1) :pattern ((itoa n)))))
+; substring test (uninterpreted: the standard library is trusted)
+; sig str_contains : Str Str -> Bool
+(declare-fun str_contains (Str Str) Bool)
